@@ -268,22 +268,23 @@ func syntheticC20(c *Ctx, cn *types.Func) {
 			// only without an INTO target: with one, the tags are written as tags
 			// of the target measurement and get no column
 			guarded := false
-			for d := b; d != nil && !guarded; d = d.Idom() {
-				for _, pr := range d.Preds {
-					ifi, ok := pr.Instrs[len(pr.Instrs)-1].(*ssa.If)
-					if !ok || len(d.Preds) != 1 {
-						continue
+			{
+				// evaluate the function with the INTO target present: the block
+				// that creates the column must be unreachable
+				sc := p.newSCCP()
+				sc.override = map[ssa.Value]cval{}
+				for _, b2 := range f.Blocks {
+					for _, in2 := range b2.Instrs {
+						if u, ok := in2.(*ssa.UnOp); ok {
+							if _, fld, ok := fieldRef(u); ok && fld == "Target" {
+								sc.override[u] = cSym("target")
+							}
+						}
 					}
-					bo, ok := ifi.Cond.(*ssa.BinOp)
-					if !ok || !isNilConst(bo.Y) {
-						continue
-					}
-					if _, fld, ok := fieldRef(bo.X); !ok || fld != "Target" {
-						continue
-					}
-					if (bo.Op == token.EQL && pr.Succs[0] == d) || (bo.Op == token.NEQ && pr.Succs[1] == d) {
-						guarded = true
-					}
+				}
+				if len(sc.override) > 0 {
+					r := sc.run(f, nil, 0)
+					guarded = !r.execB[b.Index]
 				}
 			}
 			if !guarded && !bad {
